@@ -147,22 +147,35 @@ pub fn mod_switch_2n(n: usize, res: &mut [i64], lwe: &LWE<&[u8]>, rot_dir: LookU
         LookUpTableRotationDirection::Right => {}
     }
 
-    if base2k > log2n {
-        let diff: usize = base2k - (log2n - 1); // additional -1 because we map to [-N/2, N/2) instead of [0, N)
+    // The switched values are taken modulo `n`, i.e. they carry `log2n - 1` bits
+    // (they are mapped to [-n/2, n/2) instead of [0, n)).
+    let bits: usize = log2n - 1;
+
+    if base2k > bits {
+        let diff: usize = base2k - bits;
         res.iter_mut().for_each(|x| {
             *x = div_round_by_pow2(x, diff);
         })
     } else {
-        let rem: usize = base2k - (log2n % base2k);
-        let size: usize = log2n.div_ceil(base2k);
+        // Collects the `bits` most significant bits over `size` limbs; only the last limb can be partial.
+        let rem: usize = base2k - (bits % base2k);
+        let size: usize = bits.div_ceil(base2k);
         (1..size).for_each(|i| {
             if i == size - 1 && rem != base2k {
                 let k_rem: usize = base2k - rem;
                 izip!(lwe.data().at(0, i).iter(), res.iter_mut()).for_each(|(x, y)| {
-                    *y = (*y << k_rem) + (x >> rem);
+                    let x: i64 = match rot_dir {
+                        LookUpTableRotationDirection::Left => -*x,
+                        LookUpTableRotationDirection::Right => *x,
+                    };
+                    *y = (*y << k_rem) + div_round_by_pow2(&x, rem);
                 });
             } else {
                 izip!(lwe.data().at(0, i).iter(), res.iter_mut()).for_each(|(x, y)| {
+                    let x: i64 = match rot_dir {
+                        LookUpTableRotationDirection::Left => -*x,
+                        LookUpTableRotationDirection::Right => *x,
+                    };
                     *y = (*y << base2k) + x;
                 });
             }
